@@ -208,6 +208,18 @@ check('C17', 'model_checking',
       'TLA+ model of the render call checked by TLC + TLC-judged records of real render calls',
       'DESIGN.md 2.9, 5/C17')
 
+check('C01', 'exploration',
+      'Inputs: the test-suite statements, sentences of the exported LALR grammars generated by TLC (GrammarGen.tla, '
+      'fixed pool) and one sentence per grammar production, for the three dialects, plus targeted quoting / literal / '
+      'placeholder shapes. Each accepted text is driven through parse, print, parse, print and copy(); the recorded '
+      'pipeline (digests of a reflection projection that does not use __eq__/to_tree) is validated by TLC against '
+      'RoundTrip.tla: re-parse accepted, same tree, same second print, copy equal and printing alike.',
+      'Sampled input space (grammar sentences up to 14 tokens); the specification supplies inputs and the idempotence '
+      'machine, the property itself is decided on the observed pipelines. Many printers of mindsdb-only statements do '
+      'not round-trip: listed as known findings pinned input by input.',
+      'TLC-generated grammar sentences replayed through parse/print/parse/copy + TLC-judged pipeline records (RoundTrip.tla)',
+      'DESIGN.md 2.1, 5/C01')
+
 ALL = ['C%02d' % i for i in range(1, 21)]
 
 
